@@ -874,9 +874,8 @@ class Executor:
         range; allocated families are injective and disjoint from every other allocation.  Returns the terms with the
         constants replaced.  (Before this, all elements shared ONE constant: "all elements are the same object" was provable.)"""
         n_fresh0, n_created0, p0, heap0 = marks
-        if s.heap is not heap0:
-            raise Unsupported("comprehension element allocates a container, writes a field or calls a callee with effects")
         new_fresh = s.fresh[n_fresh0:]
+        inits = self._family_initialisers(s, heap0, new_fresh) if s.heap is not heap0 else {}
         fresh_ids = {r.get_id() for r in new_fresh}
         others = [c for c in smt.CREATED[n_created0:] if c.get_id() not in fresh_ids]
         new_pc = s.pc[p0:]
@@ -889,11 +888,13 @@ class Executor:
             return list(terms)
         dom = [b.sort() for b in binders]
         pairs, extra, pats = [], [], []
+        fam_of = {}
         for r in new_fresh:
             f = z3.Function(smt.fresh_name("sk"), *dom, V)
             pairs.append((r, f(*binders)))
             pats.append(f(*binders))
-            extra.append(smt.SkFam(f(*binders)) == smt.next_family())
+            fam_of[r.get_id()] = smt.next_family()
+            extra.append(smt.SkFam(f(*binders)) == fam_of[r.get_id()])
             if len(binders) == 1:
                 inv = z3.Function(smt.fresh_name("skinv"), V, z3.IntSort())
                 extra.append(inv(f(*binders)) == binders[0])
@@ -912,10 +913,51 @@ class Executor:
         facts += extra
         del s.pc[p0:]
         del s.fresh[n_fresh0:]
+        if inits:
+            # containers allocated per element with an element-independent initial content (empty list / dict / set): every
+            # member of the family gets that content (family members are recognised by their family id)
+            x = z3.Const("fam_x", V)
+            h = heap0
+            for comp, layers in inits.items():
+                arr = heap0.c[comp]
+                for r, val in layers:
+                    arr = z3.Lambda([x], z3.If(smt.SkFam(x) == fam_of[r.get_id()], val, arr[x]))
+                h = h.with_comp(comp, arr)
+            s.heap = h
         if facts:
             body = z3.Implies(guard, z3.And(*facts))
             s.assume(z3.ForAll(list(binders), body, patterns=pats) if pats else z3.ForAll(list(binders), body))
         return [z3.substitute(t, *pairs) if (t is not None and z3.is_expr(t)) else t for t in terms]
+
+    def _family_initialisers(self, s, heap0, new_fresh):
+        """The heap changed while the element expression was evaluated: accept exactly stores AT the newly allocated
+        references whose stored content does not depend on anything created in the element (initial contents of new
+        containers); returns {component: [(ref, content), ...]} in store order.  Anything else is outside the subset."""
+        if s.heap.f is not heap0.f and any(s.heap.f[k] is not heap0.f.get(k) for k in s.heap.f):
+            raise Unsupported("comprehension element writes a field")
+        ids = {r.get_id(): r for r in new_fresh}
+        created = {c.get_id() for c in smt.CREATED}
+        out = {}
+        for comp, cur in s.heap.c.items():
+            base = heap0.c[comp]
+            layers = []
+            while cur.get_id() != base.get_id():
+                if not (z3.is_store(cur) and cur.arg(1).get_id() in ids):
+                    raise Unsupported("comprehension element writes to a container that existed before")
+                val = cur.arg(2)
+                if any(v.get_id() in ids for v in _consts_of(val)) or smt.mentions_binder(val):
+                    raise Unsupported("comprehension element initialises a new container with element-dependent content")
+                layers.append((ids[cur.arg(1).get_id()], val))
+                cur = cur.arg(0)
+            if layers:
+                # keep only the LAST store per reference (the final initial content)
+                seen, final = set(), []
+                for r, val in layers:  # outermost first
+                    if r.get_id() not in seen:
+                        seen.add(r.get_id())
+                        final.append((r, val))
+                out[comp] = list(reversed(final))
+        return out
 
     def ev_SetComp(self, e, st):
         if len(e.generators) > 2:
@@ -966,8 +1008,6 @@ class Executor:
             marks = self.capture_marks(s)
             kv = self.ev1(e.key, s)
             vv = self.ev1(e.value, s)
-            if len(s.fresh) > n_fresh_in:
-                raise Unsupported("dict comprehension allocating objects per element")
             k_t, v_t = to_v(kv, s), to_v(vv, s)
             if self.needs_capture(s, marks):
                 k_t, v_t = self.skolemize_elements(s, marks, [j], z3.And(*guards), [k_t, v_t])
